@@ -1420,7 +1420,12 @@ func (g *evGen) maker() string {
 // or referred to by the body of an earlier defun (forward reference).
 func (g *evGen) closureDefun() string {
 	g.count("defun-closure")
-	name, c := g.fresh("f"), g.fresh("c")
+	// the closed-over variable has a name of its own also in shadow mode: on the unchanged tree a free variable of a
+	// function body is looked up in the CALLER's bindings first (listed: closure.read.let-shadow,
+	// defun.free-var-lexical), so a caller that binds the same name would hit that finding, not this template's point
+	name := g.fresh("f")
+	g.n++
+	c := fmt.Sprintf("cv%s%d", g.prefix, g.n)
 	pre := ""
 	switch g.r.Intn(4) {
 	case 1:
